@@ -50,4 +50,197 @@ class AlignStream(Stream):
         return repr((case['ref'], case['qry'], case['peaks'], case['rev'], sorted(case['P'].items())))
 
 
-STREAMS = [AlignStream()]
+
+
+# ------------------------------------------------------------------------------------------------ the resolver called directly
+# Lists of hand-built segments handed straight to AlignmentSegmentConflictResolver.resolveConflicts (an observation point of C15):
+# chains of 2-6 segments on a label grid in which neighbours AND members two apart overlap, so that a middle member is emptied and the
+# members around it still have to be resolved against each other (1 case in ~2 million of the Aligner.align stream).  Such lists need not be
+# producible by the pairing engine, so the disjointness clause is NOT demanded of them on its own: the stream is a correspondence stream
+# (model Core.resolve_conflicts = code), plus the clauses proved for ANY input (C15_subrun_any_input: sub-run, no re-scoring, score = sum).
+# Where model and code differ AND the code's output shares a label or crosses while the model's output (the validated behaviour) passes the
+# verified checker disjoint_dirb, the case is reported as a failing input (code 2).
+DIRECT_PRELUDE = pl.PRELUDE.replace('Require Import Py Pairing Core Multi Cigar Checkers.', 'Require Import Py Pairing Core Multi Cigar Checkers ResolverProofs3.') + '''
+Definition mkpos6 (t : Z*Z*Z*Z*Z*Z) : spos := match t with (k, rs, rp, qs, qp, s) =>
+  if k =? 0 then mkS (Pair (mkLabel rs rp) (mkLabel qs qp) 0 0) s else if k =? 1 then mkS (URef (mkLabel rs rp)) s else mkS (UQry (mkLabel qs qp) 0) s end.
+Fixpoint mksegs6 (i : Z) (l : list (list (Z*Z*Z*Z*Z*Z))) : list segment :=
+  match l with [] => [] | ps :: t => seg_create (List.map mkpos6 ps) i :: mksegs6 (i + 10) t end.
+Definition check (c : Z * Z * Z * bool * list (list (Z*Z*Z*Z*Z*Z)) * (bool * bool * list cseg)) : Z :=
+  match c with (sjn, sjd, ss, rev_, sl, (ierr, ishared, esegs)) =>
+  let P := mkP 0 0 0 0 0 0 (sjn # Z.to_pos sjd) ss in
+  match resolve_conflicts P (mksegs6 0 sl) with
+  | Err => if ierr then 0 else 1
+  | Ok segs => if ierr then 1 else
+      if eqsegs (List.map cseg_of segs) esegs then 0 else
+      if ishared && disjoint_dirb (if rev_ then -1 else 1) segs then 2 else 1
+  end end.
+'''
+
+
+def _build_direct(spec, idx):
+    from src.alignment.segments import AlignmentSegment
+    from src.alignment.alignment_position import (AlignedPair, ScoredAlignedPair, ScoredNotAlignedPosition,
+                                                  NotAlignedReferencePosition, NotAlignedQueryPosition)
+    from src.correlation.optical_map import PositionWithSiteId
+    from src.correlation.peak import Peak
+    pos = []
+    for k, rs, rp, qs, qp, s in spec:
+        if k == 0:
+            pos.append(ScoredAlignedPair(AlignedPair(PositionWithSiteId(rs, rp), PositionWithSiteId(qs, qp), 0), float(s)))
+        elif k == 1:
+            pos.append(ScoredNotAlignedPosition(NotAlignedReferencePosition(PositionWithSiteId(rs, rp)), float(s)))
+        else:
+            pos.append(ScoredNotAlignedPosition(NotAlignedQueryPosition(PositionWithSiteId(qs, qp), 0), float(s)))
+    return AlignmentSegment.create(pos, Peak(idx, 10.), pos)
+
+
+def _shared_or_crossing(segs, rev):
+    """segs: canonical segments [peak, score, positions]; True when two non-empty results share a label or are not in order on both sequences"""
+    ne = [pl.seg_pairs(s) for s in segs if s[2] and pl.seg_pairs(s)]
+    for i, a in enumerate(ne):
+        for b in ne[i + 1:]:
+            if {p[0] for p in a} & {p[0] for p in b} or {p[1] for p in a} & {p[1] for p in b}:
+                return True
+            if not a[-1][0] < b[0][0]:
+                return True
+            if (not a[-1][1] > b[0][1]) if rev else (not a[-1][1] < b[0][1]):
+                return True
+    return False
+
+
+class DirectStream(Stream):
+    name = 'resolver_direct'
+    prelude = DIRECT_PRELUDE
+    shard = 400
+    quick_n, thorough_n = 3000, 40000
+    NQ = 40
+
+    def _case(self, rng):
+        rev = rng.random() < 0.5
+        k = rng.choice([2, 3, 3, 3, 4, 4, 5, 6])
+        segs = []
+        er, eq = rng.randint(1, 4), rng.randint(1, 4)          # grid coordinates just before the first segment
+        ends = []
+        for i in range(k):
+            if i >= 2 and rng.random() < 0.5:                  # start against the member two back: the one in between may be emptied
+                br, bq = ends[i - 2]
+                r = br + rng.choice([-1, 0, 0, 1]); q = bq + rng.choice([-1, 0, 0, 1])
+            else:
+                r = er + rng.choice([-2, -1, -1, 0, 0, 1, 1, 2]); q = eq + rng.choice([-2, -1, -1, 0, 0, 1, 1, 2])
+            r = max(1, r); q = max(1, q)
+            n = rng.choice([1, 1, 2, 2, 3, 4])
+            ps = []
+            for j in range(n):
+                if j:
+                    step = rng.random()
+                    if step < 0.15:
+                        ps.append((1, r + 1, 0, rng.choice([-250, -250, -100]))); r += 2; q += 1
+                    elif step < 0.3:
+                        ps.append((2, 0, q + 1, rng.choice([-250, -250, -100]))); r += 1; q += 2
+                    else:
+                        r += 1; q += 1
+                ps.append((0, r, q, rng.choice([1000, 1000, 950, 900, 800, 700, 400])))
+            segs.append(ps)
+            er, eq = r, q
+            ends.append((r, q))
+        nq = max(max(p[2] for s in segs for p in s), 2) + 1
+        g = rng.choice([100, 1000, 1000, 2500])
+        out = []
+        for ps in segs:
+            t = []
+            for kind, r, q, s in ps:
+                qs = (nq + 1 - q) if rev else q
+                t.append([kind, r if kind != 2 else 0, g * r if kind != 2 else 0, qs if kind != 1 else 0, g * q if kind != 1 else 0, s])
+            out.append(t)
+        order = list(range(k))
+        if rng.random() < 0.4:
+            rng.shuffle(order)
+        return dict(kind='grid', rev=rev, sj=rng.choice([1.0, 1.0, 0.5, 2.0, 0.0]), ss=rng.choice([0, 0, 1]), segs=[out[i] for i in order])
+
+    def gen(self, rng, tier):
+        P = lambda rs, rp, qs, qp, s: [0, rs, rp, qs, qp, s]
+        A = [P(30, 3000, 30, 3000, 1000), P(40, 4000, 40, 4000, 1000), P(52, 5200, 55, 5500, 1000)]
+        B = [P(50, 5000, 50, 5000, 900), P(60, 6000, 60, 6000, 900)]
+        C = [P(58, 5800, 55, 5500, 1000), P(70, 7000, 70, 7000, 1000), P(80, 8000, 80, 8000, 1000)]
+        A2 = [P(1, 100, 1, 100, 100), P(2, 200, 2, 200, 100), P(3, 300, 3, 300, 100)]
+        B2 = [P(4, 400, 4, 400, 50)]
+        C2 = [P(3, 300, 4, 400, 101), P(5, 500, 5, 500, 100)]
+        fixed = [dict(kind='fixed', rev=False, sj=1.0, ss=0, segs=[C, A, B]), dict(kind='fixed', rev=False, sj=1.0, ss=0, segs=[A2, B2, C2]),
+                 dict(kind='fixed', rev=False, sj=1.0, ss=1, segs=[A, B, C]), dict(kind='fixed', rev=False, sj=0.0, ss=0, segs=[A2, B2, C2])]
+        n = self.quick_n if tier == 'quick' else self.thorough_n
+        return fixed + [self._case(rng) for _ in range(n)]
+
+    def impl(self, case):
+        from src.alignment.segment_chainer import SegmentChainer, SequentialityScorer
+        from src.alignment.segment_with_resolved_conflicts import AlignmentSegmentConflictResolver
+        segs = [_build_direct(s, i) for i, s in enumerate(case['segs'])]
+        out = dict(inputs=[pl.canon_seg(s) for s in segs])
+        try:
+            if pl.chain_trace(segs, case['sj'], case['ss'], False) != pl.chain_trace(segs, case['sj'], case['ss'], True):
+                out['float_flip'] = True
+        except Exception as e:
+            out['float_flip_err'] = type(e).__name__
+        try:
+            res = AlignmentSegmentConflictResolver(SegmentChainer(SequentialityScorer(case['sj'], case['ss']))).resolveConflicts(list(segs))
+            out['segs'] = [pl.canon_seg(s) for s in res.segments]
+            out['shared'] = _shared_or_crossing(out['segs'], case['rev'])
+        except Exception as e:
+            out['err'] = type(e).__name__ + ':' + str(e)[:80]
+        return out
+
+    def tolerated(self, case, out):
+        return bool(out.get('float_flip'))
+
+    def term(self, case, out):
+        from fractions import Fraction
+        from ..common import z, cb, clist
+        sj = Fraction(case['sj']) * 20
+        sl = clist(clist('(%d,%s,%s,%s,%s,%s)' % (p[0], z(p[1]), z(10 * p[2]), z(p[3]), z(10 * p[4]), z(20 * p[5])) for p in s) for s in case['segs'])
+        return '(%s,%s,%d,%s,%s,(%s,%s,%s))' % (z(sj.numerator), z(sj.denominator), case['ss'], cb(case['rev']), sl, cb('err' in out),
+                                               cb(bool(out.get('shared'))), clist(pl.cseg_term(s) for s in out.get('segs', [])))
+
+    def oracle(self, case, out):
+        # only the clauses proved for ANY input list (C15_subrun_any_input)
+        if 'err' in out:
+            return []
+        errs = []
+        ins = pl.nonempty(out['inputs'])
+        key = lambda p: tuple(p[:3])
+        for s in pl.nonempty(out['segs']):
+            ks = [key(p) for p in s[2]]
+            found = None
+            for t in ins:
+                if t[0] != s[0]:
+                    continue
+                tk = [key(p) for p in t[2]]
+                for a in range(len(tk) - len(ks) + 1):
+                    if tk[a:a + len(ks)] == ks:
+                        found = (t, a); break
+                if found:
+                    break
+            if not found:
+                errs.append('output segment (peak %s) is not a contiguous sub-run of an input segment' % (s[0] / 10.0)); continue
+            t, a = found
+            if [p[4] for p in t[2][a:a + len(ks)]] != [p[4] for p in s[2]]: errs.append('a position was re-scored')
+            if sum(p[4] for p in s[2]) != s[1]: errs.append('segment score not recomputed as the sum of what is left')
+        return sorted(set(errs))
+
+    def classify(self, case, out):
+        k = [case['kind'], 'rev' if case['rev'] else 'fwd', 'members=%d' % len(case['segs'])]
+        if 'err' in out:
+            return k + ['error:' + out['err'].split(':')[0]]
+        nin = len(pl.nonempty(out['inputs'])); nout = len(pl.nonempty(out['segs']))
+        k.append('segments_out=%d' % min(nout, 5))
+        if nout < nin: k.append('emptied_member')
+        if out['segs'] != out['inputs'] and sorted(map(repr, out['segs'])) != sorted(map(repr, out['inputs'])): k.append('trimmed')
+        if out.get('shared'): k.append('result_shares_or_crosses(not demanded of hand-built lists)')
+        if out.get('float_flip'): k.append('float_flip')
+        return k
+
+    def nontrivial(self, case, out):
+        if 'err' in out or out['segs'] == out['inputs']:
+            return None
+        return repr((case['segs'], case['rev'], case['sj'], case['ss']))
+
+
+STREAMS = [AlignStream(), DirectStream()]
